@@ -1120,8 +1120,9 @@ STR_REV = z3.Function("str_rev", z3.StringSort(), z3.StringSort())
 
 
 def str_reverse(eng, s):
-    r = STR_REV(s)
     run = eng.run
+    r = z3.String(run.fresh_name("reversed"))
+    run.assume(r == STR_REV(s))
     run.assume(z3.Length(r) == z3.Length(s))
     run.rev_pairs.append((s, r))
     return r
@@ -1828,7 +1829,8 @@ def str_method(eng, recv, name, args, kwargs, node, frame):
         return tv_int(r)
     if name == "zfill":
         w = eng.to_tv(args[0]).as_int()
-        r = STR_ZFILL(s, w)
+        r = z3.String(run.fresh_name("zfilled"))
+        run.assume(r == STR_ZFILL(s, w))
         run.zfill_terms.append((s, w, r))
         run.assume(z3.Length(r) == z3.If(w > z3.Length(s), w, z3.Length(s)))
         return tv_str(r)
